@@ -32,6 +32,21 @@ def main():
         extra = manifest_extra
     except ImportError:
         extra = None
+    def mc_sentence(pid, lvl):
+        if lvl != "model_checking":
+            return (" No TLC model-checking scope is claimed for this property: it is a bounded-liveness statement decided on recorded "
+                    "executions (fault prefix + fair suffix with leadership rotation), all judged by TLC.")
+        try:
+            import mc
+            models = ", ".join(mc.CONFIGS.get(pid, []))
+        except Exception:
+            models = "see tools/mc.py"
+        return (" In addition TLC model-checks spec/RaftRs.tla (the cluster of Node.tla/RawNodeOps.tla nodes with storage, application "
+                "automaton and network) in the scopes spec/MC/{%s}.cfg with every predicate evaluated on every transition; the maximal "
+                "schedules TLC prints are merged into replay trees, executed on the real RawNode cluster and judged by TLC again "
+                "(specification and implementation must agree step by step: zero drift). Thorough tier: the *_thorough.cfg scopes are "
+                "model-checked at the specification level, more and longer recorded executions are judged. Exhaustive only inside the "
+                "stated scopes; outside them the claim is exploration." % models)
     checks = []
     for pid, (ref, how) in sorted(SYSTEM.items()):
         lvl = getattr(extra, "LEVEL", {}).get(pid, "exploration") if extra else "exploration"
@@ -48,7 +63,7 @@ def main():
                         ("The property is a set of named TLA+ predicates in spec/Props.tla (%s). Seeded fault-heavy executions of the real "
                          "RawNode cluster (loss, duplication, reordering, partitions, crash/restart at every point of the Ready cycle, sync and "
                          "async persistence) plus directed schedules are recorded and TLC evaluates every predicate on every state of every "
-                         "recorded execution (spec/Trace.tla)." % how),
+                         "recorded execution (spec/Trace.tla).%s" % (how, mc_sentence(pid, lvl))),
                 "design_ref": "DESIGN.md " + ref,
             },
             "level_note": "Trusted: TLC, the harness projection (harness/src/view.rs) and application automaton (harness/src/sim.rs, DESIGN §2.2: "
@@ -65,7 +80,7 @@ def main():
             "guard": "tikv_raft_rs_verif",
             "enable": "harness/.cargo/config.toml passes --cfg tikv_raft_rs_verif (rustflags) when the harness crate builds /repo as a path dependency",
             "baseline_off_cmd": "cd /repo && cargo test --workspace --no-fail-fast --offline",
-            "source_commits": ["406e9e2", "6cfbfc7"],
+            "source_commits": ["406e9e2", "6cfbfc7", "7b7315a"],
             "add_only": True,
         },
         "engines": [
